@@ -136,6 +136,9 @@ pub const VARIANT_REBUILD: u8 = 255;
 pub const VARIANT_TWIN: u8 = 254;
 /// the failing observation was made right after the interference probe
 pub const VARIANT_INTERFERE: u8 = 253;
+/// The failure was observed while the state and a twin game (another turn start that reaches the same
+/// board with its first step) were advanced in lockstep on one thread, see `lockstep_probe`.
+pub const VARIANT_LOCKSTEP: u8 = 252;
 
 pub enum Source<'a> {
     Ops(&'a [(u16, u8)]),
@@ -625,6 +628,9 @@ pub fn observe_forks(eng: &GameState, mo: &Model, variants: &[u8], obs: &mut dyn
     if mo.setup {
         return Ok(());
     }
+    if variants == [VARIANT_LOCKSTEP] {
+        return lockstep_probe(eng, mo, obs, st).map_err(|f| (f, VARIANT_LOCKSTEP));
+    }
     if variants == [VARIANT_REBUILD] {
         // the rebuilt state itself is what the observer looks at: if the constructors do not preserve
         // behaviour, the observer's own clauses say how
@@ -668,6 +674,32 @@ pub fn observe_forks(eng: &GameState, mo: &Model, variants: &[u8], obs: &mut dyn
         if (variant == 3) != (mo.step == 0) {
             continue;
         }
+        if variant == 4 || variant == 5 {
+            // two histories of the same length that end in the same position but repeat different earlier
+            // positions (every second target vs. the others): the first is only asked, the second is
+            // observed right afterwards - two games that went different ways to the same place
+            let all = fork_targets(mo, &vanr, 1);
+            let mut odd: Vec<(Board, bool)> = all.iter().step_by(2).cloned().collect();
+            let mut even: Vec<(Board, bool)> = all.iter().skip(1).step_by(2).cloned().collect();
+            let n = odd.len().min(even.len());
+            if n == 0 {
+                continue;
+            }
+            odd.truncate(n);
+            even.truncate(n);
+            let (first, second) = if variant == 4 { (odd, even) } else { (even, odd) };
+            if let (Some((ae, _)), Some((be, bm))) = (fork_with_history(eng, mo, &first), fork_with_history(eng, mo, &second)) {
+                let _ = guard(|| {
+                    let _ = ae.valid_actions();
+                    let _ = ae.is_terminal();
+                    let _ = ae.can_pass(true);
+                });
+                st.bump("fork_pair_same_length_observed");
+                let v = View::new(&be, &bm, true);
+                obs.on_state(&v, st).map_err(|f| (f, variant))?;
+            }
+            continue;
+        }
         let extra = fork_targets(mo, &vanr, variant);
         if extra.is_empty() {
             continue;
@@ -681,6 +713,101 @@ pub fn observe_forks(eng: &GameState, mo: &Model, variants: &[u8], obs: &mut dyn
     Ok(())
 }
 
+
+/// Lockstep probe. `eng` is a state after the first step of a turn. A twin game is started from another
+/// legal turn-start position - the same board with the piece that has just moved standing on a different
+/// neighbour of its destination - and makes the step that leads to the very same board. From there both
+/// games make the same further steps of the turn alternately on this thread, and both are observed after
+/// every step (two analyses of sibling positions interleaved by one client). Every state involved is
+/// reached through offered actions from a legal start, so everything the observer demands applies.
+pub fn lockstep_probe(eng: &GameState, mo: &Model, obs: &mut dyn Obs, st: &mut Stats) -> Check {
+    if mo.setup || mo.step != 1 || mo.captured_this_turn || mo.turn_boards.is_empty() {
+        return Ok(());
+    }
+    let t0 = mo.turn_boards[0];
+    let emptied: Vec<u8> = (0..64u8).filter(|&q| t0.at(q) != m::EMPTY && mo.board.at(q) == m::EMPTY).collect();
+    let filled: Vec<u8> = (0..64u8).filter(|&q| t0.at(q) == m::EMPTY && mo.board.at(q) != m::EMPTY).collect();
+    if emptied.len() != 1 || filled.len() != 1 {
+        return Ok(());
+    }
+    let (s, t) = (emptied[0], filled[0]);
+    let piece = mo.board.at(t);
+    for dir in 0..4u8 {
+        // the twin's origin s2: a neighbour of t other than s that is empty now
+        let s2 = match m::neighbour(t, dir) {
+            Some(q) if q != s && mo.board.at(q) == m::EMPTY => q,
+            _ => continue,
+        };
+        let mut b0 = mo.board;
+        b0.0[t as usize] = m::EMPTY;
+        b0.0[s2 as usize] = piece;
+        if !b0.traps_legal() || !b0.within_complement() {
+            continue;
+        }
+        let mb0 = Model::from_position(b0, mo.gold_to_move, mo.move_number);
+        if mb0.result_at_turn_start().is_some() {
+            continue;
+        }
+        let first = MAction::Step { from: s2, dir: m::opposite(dir) };
+        if !mb0.offered().contains(&first) {
+            continue;
+        }
+        let eb0 = match engine_from_position(&b0, mo.gold_to_move, mo.move_number) {
+            Ok(e) => e,
+            Err(_) => continue,
+        };
+        let mut mb = mb0.clone();
+        if mb.apply(first).is_err() || mb.board != mo.board {
+            continue;
+        }
+        let fa = to_action(first);
+        let offered_first = guard(|| eb0.valid_actions()).unwrap_or_default();
+        if !offered_first.contains(&fa) {
+            continue; // the twin's first step is not offered (another property's business)
+        }
+        let mut eb = match guard(|| eb0.take_action(&fa)) {
+            Ok(e) => e,
+            Err(_) => continue,
+        };
+        let (mut ea, mut ma) = (eng.clone(), mo.clone());
+        st.bump("lockstep_twin_games_started");
+        let ctx = |f: Fail, who: &str, depth: usize| Fail::new(&f.clause, format!("({} game, {} further steps after a twin game that started from [{}] and the game itself were brought to the same board and advanced alternately) {}", who, depth, board_text(&b0), f.detail));
+        for depth in 1..=2usize {
+            let oa = guard(|| ea.valid_actions()).unwrap_or_default();
+            let ob = guard(|| eb.valid_actions()).unwrap_or_default();
+            let common: Vec<Action> = oa.iter().filter(|x| ob.contains(x) && matches!(x, Action::Move(..)) && ma.offered().contains(&to_maction(x)) && mb.offered().contains(&to_maction(x))).cloned().collect();
+            if common.is_empty() {
+                break;
+            }
+            let x = common[(fp_combine(mo.board.fingerprint(), (depth as u64) << 8 | dir as u64) % common.len() as u64) as usize];
+            // the twin first on the first further step, the game itself first on the second
+            let order: [bool; 2] = if depth == 1 { [false, true] } else { [true, false] };
+            let mut na = None;
+            let mut nb = None;
+            for &is_a in order.iter() {
+                if is_a {
+                    na = guard(|| ea.take_action(&x)).ok();
+                } else {
+                    nb = guard(|| eb.take_action(&x)).ok();
+                }
+            }
+            let (na, nb) = match (na, nb) {
+                (Some(a), Some(b)) => (a, b),
+                _ => return Ok(()),
+            };
+            if ma.apply(to_maction(&x)).is_err() || mb.apply(to_maction(&x)).is_err() {
+                return Ok(());
+            }
+            ea = na;
+            eb = nb;
+            st.bump("lockstep_states_observed");
+            obs.on_state(&View::new(&ea, &ma, true), st).map_err(|f| ctx(f, "own", depth))?;
+            obs.on_state(&View::new(&eb, &mb, true), st).map_err(|f| ctx(f, "twin", depth))?;
+        }
+        return Ok(());
+    }
+    Ok(())
+}
 
 /// The same squares and colours with the piece types of each colour rotated by one piece.
 pub fn type_permuted_twin(b: &Board) -> Option<Board> {
@@ -867,6 +994,13 @@ pub fn walk(
                 }
             }
         }
+        if opts.interfere && !mo.setup && mo.step == 1 {
+            if let Err((f, variant)) = observe_forks(&eng, &mo, &[VARIANT_LOCKSTEP], obs, st) {
+                let mut t = trace.clone();
+                t.fork = Some(variant);
+                return Err(WalkFail { fail: f, trace: t, inconclusive: false });
+            }
+        }
         if opts.inject == Inject::Rebuild {
             if let Err((f, variant)) = observe_forks(&eng, &mo, &[VARIANT_REBUILD], obs, st) {
                 let mut t = trace.clone();
@@ -875,7 +1009,7 @@ pub fn walk(
             }
         }
         if opts.inject == Inject::Auto {
-            if let Err((f, variant)) = observe_forks(&eng, &mo, &[0, 1, 2, 3], obs, st) {
+            if let Err((f, variant)) = observe_forks(&eng, &mo, &[0, 1, 2, 3, 4, 5], obs, st) {
                 let mut t = trace.clone();
                 t.fork = Some(variant);
                 return Err(WalkFail { fail: Fail::new(&f.clause, format!("(on a fork of this state whose history holds the result of some turn-ending actions twice, variant {}) {}", variant, f.detail)), trace: t, inconclusive: false });
